@@ -18,7 +18,9 @@ RULE = ("kernel records printed by the Coq kernel printers (k_stat, k_status, k_
         "directory listings scanned by the real glob (tty and non-tty names, dot-files, aliases = several paths for one device, "
         "nodes that vanish, pts minors up to 2^20-1); read faults on the stat file between construction and call (ESRCH/ENOENT/"
         "EACCES x re-read) for name/status/cpu_num; 1-8 threads with their own names, vanishing threads, dead/zombie owner; "
-        "ppid_map/pids over /proc listings with present/vanished/unreadable processes and non-numeric entries; plus a malformed "
+        "name() as a str in child interpreters started with each available file-system encoding (utf-8; ascii = LC_ALL=C with "
+        "UTF-8 mode and locale coercion off) for names of bytes >= 0x80 that are well-formed UTF-8 (2/3/4-byte, range ends), "
+        "truncated, overlong, surrogates, > U+10FFFF, stray bytes; ppid_map/pids over /proc listings with present/vanished/unreadable processes and non-numeric entries; plus a malformed "
         "stream (truncated / mutated records, broken /proc/stat, rdev-0 files, unreadable thread files) compared with the model "
         "only. A case is non-trivial when its name is non-empty or a counter is non-zero; distinct = distinct canonical case hash.")
 TRUSTED = ["correspondence harness props/C06.py + pv/ (fake /proc tree; os.scandir/os.stat patched for /dev and /dev/pts under "
@@ -26,11 +28,15 @@ TRUSTED = ["correspondence harness props/C06.py + pv/ (fake /proc tree; os.scand
            "kernel formats of /proc/<pid>/stat, /proc/<pid>/status (Name escaping), /proc/stat btime, new_encode_dev and glibc "
            "makedev transcribed in coq/C06/Spec.v",
            "table translator props/_c06_tables.py (PROC_STATUSES, STATUS_ZOMBIE -> coq/Gen/C06_Tables.v)",
+           "child interpreters props/_c06_child.py (one per file-system encoding, JSON line protocol); the fs codec transcribed in "
+           "coq/C06/Codec.v (utf-8/ascii/latin-1 + surrogateescape) is compared with CPython's on every such case",
            "CPython re engine agrees with the four hand-written scanners of coq/C06/Model.v; glob/fnmatch agree with glob_tty/"
            "glob_pts (both exercised by the run)"]
 ASSUMPTIONS = ["CPython semantics of bytes.find/rfind/split/strip/isdigit, int(), float() on integral text, list.sort, dict are modelled, not verified",
                "float()/int() input longer than 300 digits, float literals that are not integers, and non-ASCII state "
                "tokens are outside the model (OutOfModel, skipped)",
+               "no latin-1 (or other 8-bit) locale is installed on this host: the latin-1 decoder is proved (round trip) but only utf-8 and "
+               "ascii interpreters are run",
                "directory names of /proc that are all digits are canonical decimals (no leading zeros) and distinct",
                "IEEE double rounding of float(ticks)/CLOCK_TICKS (+ btime) is accepted within tol x = 2^-48 * max(1,|x|); theorem "
                "C06_tolerance_below_half_tick shows 2*tol < one tick for |x| <= 2^36 s, CLK <= 1024"]
@@ -253,6 +259,26 @@ def _ppid_map_case(rng):
             "ents": ents, "expect_spec": True}
 
 
+HI_PIECES = [b"caf\xc3\xa9", b"\xc3\xa9", b"\xe2\x82\xac", b"\xf0\x9f\x98\x80", b"\xc2\x80", b"\xdf\xbf", b"\xe0\xa0\x80",
+             b"\xef\xbf\xbf", b"\xf4\x8f\xbf\xbf", b"\xed\x9f\xbf", b"\xee\x80\x80",          # well-formed, incl. the range ends
+             b"\xc3", b"\xe2\x82", b"\xf0\x9f\x98", b"\xa9", b"\x80", b"\xbf", b"\xff", b"\xfe", # truncated / stray
+             b"\xc0\x80", b"\xc1\xbf", b"\xe0\x9f\xbf", b"\xf0\x8f\xbf\xbf",                  # overlong
+             b"\xed\xa0\x80", b"\xed\xbf\xbf", b"\xf4\x90\x80\x80", b"\xf5\x80\x80\x80",       # surrogates, > U+10FFFF
+             b"a", b"Z", b")", b" ", b"(", b"\n", b"-", b"\xe9", b"\xc4\x9f\xc3\xbc"]
+FS_ENCODINGS = ["utf-8", "ascii"]      # what this host can start an interpreter with (no latin-1 locale installed)
+
+
+def _name_enc_case(rng, enc=None):
+    out = b""
+    n = rng.choice([2, 4, 5, 8, 15, 15])
+    while len(out) < n:
+        out += rng.choice(HI_PIECES) if rng.random() < 0.9 else bytes([rng.randint(128, 255)])
+    comm = out[:15] if rng.random() < 0.7 else out[-15:]
+    base = _stat_case(rng, comm=comm, cls="x")
+    enc = enc or rng.choice(FS_ENCODINGS)
+    return dict(base, kind="name_enc", cls="name-fsenc-" + enc, enc=enc, expect_spec=True)
+
+
 def _mutate(rng, data):
     k = rng.random()
     if k < 0.3:   # truncate after some field
@@ -363,6 +389,10 @@ def gen_cases(rng, tier):
         cases.append(_threads_case(rng))
     for _ in range(50 * n):
         cases.append(_ppid_map_case(rng))
+    for enc in FS_ENCODINGS:        # an interpreter started with each file-system encoding (child process)
+        cases.append(dict(_name_enc_case(rng, enc), comm=b"caf\xc3\xa9".hex()))
+        for _ in range(24 * n):
+            cases.append(_name_enc_case(rng, enc))
     for _ in range(40 * n):
         cases.append(_race_case(rng))
     for _ in range(120 * n):
@@ -434,6 +464,9 @@ def _pos(n):
 
 def coq_term(case):
     k = case["kind"]
+    if k == "name_enc":
+        return "run_name_enc %s %s" % ({"utf-8": "Utf8", "ascii": "Ascii", "latin-1": "Latin1"}[case["enc"]],
+                                       _kstat(case["pid"], bytes.fromhex(case["comm"]), _after(case)))
     if k in ("stat", "stat_race"):
         rec = _kstat(case["pid"], bytes.fromhex(case["comm"]), _after(case))
     if k == "stat":
@@ -492,7 +525,7 @@ def coq_struct(case, raw):
     k = case["kind"]
     if k == "stat":
         return {"printed": raw[0], "procstat": raw[1], "model": raw[2], "spec": raw[3]}
-    if k in ("status", "ppid_map", "stat_race"):
+    if k in ("status", "ppid_map", "stat_race", "name_enc"):
         return {"printed": raw[0], "model": raw[1], "spec": raw[2]}
     if k == "threads":
         return {"printed": raw[0], "own": raw[1], "model": raw[2], "spec": raw[3]}
@@ -540,6 +573,15 @@ def judge(case, coq, impl):
     model, spec = coq["model"], coq["spec"]
     if case.get("expect_spec") and spec is None:
         return Verdict("corr", "harness: the specification does not apply to a generated kernel record (wf false)")
+    if k == "name_enc":
+        want_str, want_bytes = spec
+        if impl[0] != want_str:
+            return Verdict("violation", "name() is not os.fsdecode(comm) under the %s file-system encoding" % case["enc"])
+        if impl[1] != want_bytes:
+            return Verdict("violation", "os.fsencode(name()) does not give back the kernel's comm bytes (%s)" % case["enc"])
+        if impl[0] != model:
+            return Verdict("corr", "name(): implementation differs from the model (%s)" % case["enc"])
+        return Verdict("ok")
     if k in KIND_GROUP:
         names = METHODS[KIND_GROUP[k]]
         specs = spec if spec is not None else [None] * len(names)
@@ -633,6 +675,35 @@ def _oserr(kind, path):
     return cls(no, os.strerror(no), path)
 
 
+_children = {}
+CHILD_ENV = {"utf-8": {"PYTHONUTF8": "1"},
+             "ascii": {"LC_ALL": "C", "PYTHONCOERCECLOCALE": "0", "PYTHONUTF8": "0"}}
+
+
+def _child(enc):
+    """A persistent interpreter whose sys.getfilesystemencoding() is `enc` (fixed at start-up, so it has to be a
+    separate process); same psutil (PYTHONPATH is inherited from the worker)."""
+    import subprocess
+    import sys
+    ch = _children.get(enc)
+    if ch is not None and ch.poll() is None:
+        return ch
+    e = {k: v for k, v in os.environ.items() if not (k.startswith("LC_") or k in ("LANG", "LANGUAGE", "PYTHONUTF8",
+                                                                                   "PYTHONCOERCECLOCALE", "PYTHONIOENCODING"))}
+    e.update(CHILD_ENV[enc])
+    ch = subprocess.Popen([sys.executable, "-m", "props._c06_child"], stdin=subprocess.PIPE, stdout=subprocess.PIPE,
+                          env=e, cwd=os.path.dirname(os.path.dirname(os.path.abspath(__file__))), text=True, bufsize=1)
+    hello = json.loads(ch.stdout.readline())
+    import codecs
+    if codecs.lookup(hello["enc"]).name != codecs.lookup(enc).name or hello["errs"] != "surrogateescape":
+        raise RuntimeError("child interpreter started with fs encoding %r/%r, wanted %r" % (hello["enc"], hello["errs"], enc))
+    import psutil
+    if os.path.dirname(os.path.realpath(hello["file"])) != os.path.dirname(os.path.realpath(psutil.__file__)):
+        raise RuntimeError("child imported psutil from %s" % hello["file"])
+    _children[enc] = ch
+    return ch
+
+
 def _impl_run(case, coq, env):
     import builtins
     import shutil
@@ -710,6 +781,22 @@ def _impl_run(case, coq, env):
             finally:
                 os.scandir, os.stat = real_scandir, real_stat
                 _psposix.get_terminal_map.cache_clear()
+        if k == "name_enc":
+            pid = case["pid"]
+            fp.add(pid)
+            fp.write(pid, "cmdline", b"")
+            fp.write(pid, "stat", unB(coq["printed"]))
+            ch = _child(case["enc"])
+            ch.stdin.write(json.dumps({"root": root, "pid": pid}) + "\n")
+            ch.stdin.flush()
+            line = ch.stdout.readline()
+            if not line:
+                raise RuntimeError("child interpreter (%s) died" % case["enc"])
+            r = json.loads(line)
+            if "exc" in r:
+                return [T("Exc", T(r["exc"])), None]
+            return [T("Val", T("Str", r["ok"])),
+                    {"b": r["fsencode"]} if "fsencode" in r else T("Exc", T(r["fsencode_err"]))]
         if k == "stat_race":
             pid = case["pid"]
             fp.add(pid)
@@ -822,11 +909,12 @@ def gen_tables(impl_dir, out_dir):
 
 
 MANIFEST = {
-    "text": "54 theorems (Coq 8.16, all closed under the global context) over the Gallina transcription of _parse_stat_file, the "
+    "text": "59 theorems (Coq 8.16, all closed under the global context) over the Gallina transcription of _parse_stat_file, the "
             "stat-fed accessors, boot_time(), the nested wrap_exceptions + Process.status() front end, the four status-file regex "
             "scanners, threads(), pids()/ppid_map() and get_terminal_map() with its two glob() calls. For EVERY kernel-formatted stat "
             "record (any comm bytes of any length, every record length N >= 39 incl. 39..41 without blkio, any digit strings): "
-            "name/ppid/cpu_num exact; status() = documented constant for the 12 letters and '?' for every other ASCII token, the "
+            "name/ppid/cpu_num exact, name() as a str = os.fsdecode(comm) under the interpreter's file-system encoding (utf-8 / ascii / "
+            "latin-1 + surrogateescape) with os.fsencode(os.fsdecode(b)) = b proved for every byte string and each encoding; status() = documented constant for the 12 letters and '?' for every other ASCII token, the "
             "generated PROC_STATUSES table proved equal to the documented mapping in both directions, ZombieProcess -> STATUS_ZOMBIE in "
             "the front end; cpu_times = ticks/CLK (iowait from field 42, 0 when absent); create_time = start/CLK + btime of /proc/stat "
             "(any position of the btime line), exact values of different ticks >= 1/CLK apart and twice the float tolerance < 1/CLK; "
